@@ -41,7 +41,7 @@ fn valid_bodies() -> Vec<(&'static str, Value)> {
             "/add_appointment",
             json!({"appointment": {"locator": hex::encode(l1.to_vec()), "encrypted_blob": hex::encode(&a.encrypted_blob), "to_self_delay": 42}, "signature": u1.sign(&a.to_vec())}),
         ),
-        ("/get_appointment", json!({"locator": hex::encode(l2.to_vec()), "signature": u1.sign(format!("get appointment {l2}").as_bytes())})),
+        ("/get_appointment", json!({"locator": hex::encode(l2.to_vec()), "signature": u1.sign(format!("get appointment {}", hex::encode(l2.to_vec())).as_bytes())})),
         ("/get_subscription_info", json!({"signature": u1.sign(b"get subscription info")})),
     ]
 }
@@ -607,6 +607,33 @@ pub fn c16(tier: Tier) -> i32 {
                     signed.push((format!("appointment|{l:?}|{n}|{fill}|{tsd}"), a.to_vec()));
                 }
             }
+        }
+    }
+    // the message signed for get_appointment is "get appointment " followed by the 32 hex digits of the locator (what both
+    // the tower and the client build from the locator's textual form), and it determines the locator
+    {
+        let mut tricky: Vec<[u8; 16]> = locs.clone();
+        let mut a = [0xabu8; 16];
+        a[0] = 0x01;
+        a[1] = 0x11;
+        tricky.push(a);
+        a[0] = 0x11;
+        a[1] = 0x01;
+        tricky.push(a);
+        a[0] = 0x10;
+        a[1] = 0x00;
+        tricky.push(a);
+        a[0] = 0x01;
+        a[1] = 0x00;
+        tricky.push(a);
+        for l in tricky.iter() {
+            let loc = Locator::from_slice(l).unwrap();
+            let textual = format!("get appointment {loc}");
+            evals += 1;
+            if textual != format!("get appointment {}", hex::encode(l)) {
+                fail("signed-message-differs-from-the-documented-form:get_appointment", format!("locator {} is rendered as {textual:?}", hex::encode(l)), &run);
+            }
+            signed.push((format!("get_appointment_message|{}", hex::encode(l)), textual.into_bytes()));
         }
     }
     for s in ["", "a", "ab", "\u{0}", "a\u{0}", "\u{0}\u{0}\u{0}\u{0}", "aaaa"] {
